@@ -226,7 +226,11 @@ type keyModel struct {
 	ep      string
 	wid     string
 	broken  bool
-	since   int // updates received since the last acknowledged track of the key
+	// ambiguous: an untrack was acknowledged after the reply of a track of the same
+	// key that was still in flight when the untrack was sent (asynchronous OnTrack):
+	// the server may have applied them in either order.
+	ambiguous bool
+	since     int // updates received since the last acknowledged track of the key
 	deltas  int
 	fulls   int
 	cached  int
@@ -251,6 +255,7 @@ type model struct {
 	revokePushes int
 	untrackAcks  int
 	trackAcks    int
+	ambiguous    int
 }
 
 func (m *model) key(k string) *keyModel {
@@ -300,6 +305,7 @@ func (cr *connRec) foldx(tr *truth, versioned, backendBase bool, report reporter
 		for _, km := range m.keys {
 			if km.tracked {
 				km.tracked = false
+				km.ambiguous = false
 				km.endedBy = "unsubscribe"
 				km.endSeq = f.Seq
 			}
@@ -392,7 +398,40 @@ func (cr *connRec) foldx(tr *truth, versioned, backendBase bool, report reporter
 		km.have, km.data, km.ver, km.ep, km.wid = true, out, p.Version, m.epoch, w.ID
 	}
 
-	for _, f := range cr.conn.T.Frames() {
+	frames := cr.conn.T.Frames()
+	replySeq := map[uint32]int64{}
+	for _, f := range frames {
+		if f.Reply != nil && f.Reply.Id != 0 && f.Reply.Error == nil {
+			replySeq[f.Reply.Id] = f.Seq
+		}
+	}
+	cr.mu.Lock()
+	type trk struct {
+		id  uint32
+		rec *cmdRec
+	}
+	var tracks []trk
+	for id, rec := range cr.cmds {
+		if rec.kind == "track" {
+			tracks = append(tracks, trk{id, rec})
+		}
+	}
+	cr.mu.Unlock()
+	overlappingTrack := func(key string, untrack *cmdRec, untrackReplySeq int64) bool {
+		for _, t := range tracks {
+			rs, ok := replySeq[t.id]
+			if !ok || t.rec.seq > untrackReplySeq || rs < untrack.seq || rs > untrackReplySeq {
+				continue
+			}
+			for _, k := range t.rec.keys {
+				if k == key {
+					return true
+				}
+			}
+		}
+		return false
+	}
+	for _, f := range frames {
 		if f.DecodeErr != "" {
 			continue
 		}
@@ -423,6 +462,7 @@ func (cr *connRec) foldx(tr *truth, versioned, backendBase bool, report reporter
 					km.base = rec.claims[k]
 					km.endedBy = ""
 					km.broken = false
+					km.ambiguous = false
 					km.since = 0
 				}
 				if f.Reply.SubRefresh != nil {
@@ -434,6 +474,11 @@ func (cr *connRec) foldx(tr *truth, versioned, backendBase bool, report reporter
 				m.untrackAcks++
 				for _, k := range rec.keys {
 					km := m.key(k)
+					if km.tracked && overlappingTrack(k, rec, f.Seq) {
+						km.ambiguous = true
+						m.ambiguous++
+						continue
+					}
 					if km.tracked {
 						km.tracked = false
 						km.endedBy = "untrack"
@@ -460,6 +505,7 @@ func (cr *connRec) foldx(tr *truth, versioned, backendBase bool, report reporter
 				m.revokePushes++
 				if km.tracked {
 					km.tracked = false
+					km.ambiguous = false
 					km.endedBy = "revoke"
 					km.endSeq = f.Seq
 				}
@@ -654,7 +700,8 @@ func runCase(c *kit.Case) {
 		evMu.Unlock()
 	}
 
-	var nPolls, nPrevData atomic.Int64
+	var nPolls, nPrevData, nPollRace atomic.Int64
+	var pollRace atomic.Pointer[func(key string)]
 	var hcount atomic.Int64
 	salt := r.Uint64()
 	handler := func(ctx context.Context, ev centrifuge.SharedPollEvent) (centrifuge.SharedPollResult, error) {
@@ -671,6 +718,13 @@ func runCase(c *kit.Case) {
 			}
 		}
 		nPolls.Add(1)
+		if cfg.Versioned && cfg.HookRace && len(ev.Items) > 0 && hashDelay(salt, "pollrace", n, 5) == 0 {
+			// a publisher publishes a key while the poll that asked about it is in
+			// flight, and the backend value moves on once more before the response
+			if f := pollRace.Load(); f != nil {
+				(*f)(ev.Items[int(uint64(n)%uint64(len(ev.Items)))].Key)
+			}
+		}
 		var res centrifuge.SharedPollResult
 		tr.mu.Lock()
 		for _, it := range ev.Items {
@@ -778,6 +832,12 @@ func runCase(c *kit.Case) {
 			nNotify.Add(1)
 		}
 	}
+	pr := func(key string) {
+		nPollRace.Add(1)
+		publishWrite(key, 0)
+		backendWrite(key, false)
+	}
+	pollRace.Store(&pr)
 	revoke := func(ks []string, users, exclude []string) {
 		addEvent("revoke")
 		note("revoke keys=%v users=%v exclude=%v", ks, users, exclude)
@@ -1112,6 +1172,7 @@ func runCase(c *kit.Case) {
 		}()
 	}
 	wg.Wait()
+	pollRace.Store(nil)
 	// traffic stopped: bounded progress instead of "eventually"
 	time.Sleep(4*interval + time.Duration(2*cfg.BackendDelayMax+150)*time.Millisecond)
 	w.Settle()
@@ -1167,6 +1228,7 @@ func runCase(c *kit.Case) {
 		totalRevPush += m.revokePushes
 		c.Count("track_replies", m.trackAcks)
 		c.Count("untrack_replies", m.untrackAcks)
+		c.Count("untrack_acknowledged_after_overlapping_track_reply", m.ambiguous)
 		for _, p := range m.periods {
 			if p.endKind == "unsub-push" && p.code == insufficientStateCode {
 				epochUnsubs++
@@ -1268,6 +1330,10 @@ func runCase(c *kit.Case) {
 			if km == nil || !km.tracked || km.broken {
 				continue
 			}
+			if km.ambiguous {
+				c.Count("progress_check_skipped_track_untrack_order_ambiguous", 1)
+				continue
+			}
 			if !serverTracked[k] {
 				c.Count("model_tracked_but_server_not", 1)
 				continue
@@ -1324,6 +1390,7 @@ func runCase(c *kit.Case) {
 	c.Count("backend_writes", int(nWrites.Load()))
 	c.Count("backend_polls", int(nPolls.Load()))
 	c.Count("prev_data_responses", int(nPrevData.Load()))
+	c.Count("publishes_during_poll_in_flight", int(nPollRace.Load()))
 	c.Count("epoch_changes", int(nEpoch.Load()))
 	c.Count("insufficient_state_unsubscribes", epochUnsubs)
 	c.Count("tracked_keys_converged", converged)
@@ -1357,7 +1424,7 @@ func TestC25(t *testing.T) {
 		ID:     "C25",
 		Bubble: true,
 		Rule: "each case = one virtual-time bubble with one shared-poll channel (versioned 3/5 or versionless; KeepLatestData on/off; refresh interval 30-400 ms, batch size 1/2/1000, notification batching none/delay/size, channel shutdown delay immediate/100 ms/1 s/1 h; PublishEnabled via the memory broker 1/3) and 2-5 keys. " +
-			"A scripted backend is the source of truth per key (version, bytes = near-identical JSON documents carrying a unique write id): 1-2 writers advance it every 0-25 virtual ms (occasional 0.2-0.9 s pauses) silently, with SharedPollNotify, or (versioned) with SharedPollPublish(version, epoch, data), sometimes delayed so that publishes arrive out of order; OnSharedPoll answers from it after a 0-20 ms virtual delay (versionless: data only; versioned: optionally skipping unchanged items and optionally with PrevData = the value of the version the request carried). 0-2 revocations through SharedPollManager.SharedPollRevokeKeys (all users / users / exclude users); in 1/3 of versioned cases the publisher uses epochs and restarts 0-2 times (new epoch, versions restart), announced by a publish or discovered by the next poll. " +
+			"A scripted backend is the source of truth per key (version, bytes = near-identical JSON documents carrying a unique write id): 1-2 writers advance it every 0-25 virtual ms (occasional 0.2-0.9 s pauses) silently, with SharedPollNotify, or (versioned) with SharedPollPublish(version, epoch, data), sometimes delayed so that publishes arrive out of order; OnSharedPoll answers from it after a 0-20 ms virtual delay (versionless: data only; versioned: optionally skipping unchanged items and optionally with PrevData = the value of the version the request carried; in half of the cases 1 poll in 6 is overtaken by a publish of a requested key followed by one more backend write before it answers). 0-2 revocations through SharedPollManager.SharedPollRevokeKeys (all users / users / exclude users); in 1/3 of versioned cases the publisher uses epochs and restarts 0-2 times (new epoch, versions restart), announced by a publish or discovered by the next poll. " +
 			"2-4 connections (JSON/Protobuf, fossil delta requested by 2/3, sync or async OnTrack) subscribe with type 4, then run 4-14 PRNG-scheduled commands: track random key sets claiming the version they hold (or 0), untrack, unsubscribe+resubscribe, close; they resubscribe after a server-side unsubscribe. Yield points: track.afterReply sleeps 0-12 ms and/or fires a targeted publish / write+notify / revoke / epoch restart for a key being tracked; sharedpoll.beforeFanout sleeps 0-8 ms (no lock is held at either site). " +
 			"Monitor per (connection, key) over the recorded frames: versions strictly increase from the claimed version of the track; a delta applies (fossil) to the held bytes and every reconstructed value is byte-identical to the backend write whose id it carries, with that write's version; nothing for a key after the untrack reply, the removal push of a revocation, an unsubscribe reply/push (close: the transport accepts nothing); after traffic stops + 4 refresh intervals every key tracked by a live subscription (client model and server bookkeeping agree) holds the newest backend value; every subscription current when a new publisher epoch is first handed to the server ends with an unsubscribe push code 2500. Signature = configuration x per connection (protocol, delta, #delta/#full/#cached buckets) x (#revocations, #epoch changes).",
 		Assumptions: []string{
@@ -1366,6 +1433,7 @@ func TestC25(t *testing.T) {
 			"a model client claims the version it holds only when the subscribe reply epoch equals the epoch under which it received the data (versioned), in versionless mode only when the channel state cannot have been recreated (1 h shutdown delay), otherwise 0",
 			"an epoch value handed over for the first time while nothing was handed over before is not an epoch change; connections issuing a command in the same virtual instant as the hand-over are not judged",
 			"backend-side removals (SharedPollRefreshItem.Removed), inline untrack lists in track requests, track signature expiry and RefreshIntervalFn are not exercised; single node, memory broker",
+			"an untrack acknowledged after the reply of a track of the same key that was still in flight when the untrack was sent (asynchronous OnTrack handler, pipelined commands) leaves the order in which the server applied them open: updates for the key are then accepted and progress is not demanded",
 			"close is judged at the transport: RecTransport rejects writes after Close, so silence after close holds by construction and is only counted",
 		},
 		Cases: map[string]int{"quick": 2000, "thorough": 30000},
